@@ -210,7 +210,8 @@ SPEC["C01"] = {
        start a command, '}' with no block open, anything but the name of a test after `if` (an action as a
        test, an unknown name, a string), an argument list the specification refuses (wrong type, wrong order,
        unknown tag, surplus argument, bad value of a tag's parameter: legal = LReject) at a token of one of
-       the arguments, '{' after a command that takes no block, a command name where ';' is missing;
+       the arguments, '{' after a command that takes no block, a command name where ';' is missing; `elsif` / `else` after a
+       command they may not follow (at the closing brace);
    The converse (soundness of acceptance with respect to the RFC 5228 generic grammar) is NOT proved in
    general: the rejection classes above and the structural theorem C01_accept_final_state are, and the executable oracle
    harness/sieve_spec.py (generic grammar + frozen signatures) is compared with the implementation on the
@@ -262,8 +263,12 @@ SPEC["C01"] = {
          "an action whose argument list the specification refuses (legal = LReject): rejected at a token of its arguments"),
         ("C01_after_flat_name_rejected", "RejectFacts.after_flat_name_rejected",
          "a block after a command that takes none; a command name where ';' is missing"),
+        ("C01_misplaced_follower_rejected", "RejectFacts.misplaced_follower_rejected",
+         "`elsif <test> { .. }` / `else { .. }` whose previous command is not one they may follow (or that start a block): rejected at the closing brace"),
+        ("C01_misplaced_else_example", "RejectExamples.ex_misplaced_else",
+         "non-vacuity: `stop; else { stop; } keep;` rejected with 'must follow' at the closing brace, from the theorem"),
         ("C01_reject_examples", "RejectExamples.ex_unknown",
-         "non-vacuity on the generated tables (one of eleven examples in sieve/RejectExamples.v: prefix `require [\"fileinto\"]; if size :over 100K {`)"),
+         "non-vacuity on the generated tables (one of twelve examples in sieve/RejectExamples.v: prefix `require [\"fileinto\"]; if size :over 100K {`)"),
         ("C01_accept_final_state", "GateFacts.parse_accept_reachable",
          "an accepted script ends with an empty command stack, balanced brackets and nothing expected"),
         ("raw", """(* which commands of the current tables the interpreter theorem covers (re-checked on every run) *)
